@@ -400,8 +400,10 @@ Ltac oth_tac I0 Ht K :=
 
 Ltac hcn_eq Ht :=
   match goal with
-  | |- context [Hcn (upd (thr ?s) ?t ?T') ?n ?g] =>
-      let E := fresh "EH" in pose proof (Hcn_upd (thr s) n t T' g Ht) as E
+  | |- fibg _ (set_thr ?S1 ?t ?T') ?g =>
+      let E := fresh "EH" in pose proof (Hcn_upd (thr S1) (nthr S1) t T' g Ht) as E;
+      let E' := fresh "ET" in pose proof (Hcn_term (thr S1) (nthr S1) t g Ht) as E';
+      cbn [thr nthr set_thr set_fs set_wq set_dq set_from set_to] in E, E'
   end.
 Ltac qcn_eq :=
   repeat match goal with
@@ -417,10 +419,11 @@ Ltac qcn_eq :=
 (* the per-fiber goal after a step: pose the count equations, expand, decide *)
 Ltac fibN2 Hfib Ht Hh Hh' g :=
   let H := fresh "Hg" in pose proof (Hfib g) as H; destruct H;
+  try hcn_eq Ht; try rewrite Hh in *; try rewrite Hh' in *;
   constructor;
   rewrite ?wqz_set_thr, ?wqz_set_wq, ?wqz_set_fs, ?wqz_set_dq, ?wqz_set_from, ?wqz_set_to;
   cbn [thr nthr dq fstt set_thr set_fs set_wq set_dq set_from set_to];
-  try hcn_eq Ht; try rewrite Hh in *; try rewrite Hh' in *; qcn_eq;
+  qcn_eq;
   unfold runN, kokN, klb, hok in *;
   repeat match goal with H : context [held] |- _ => progress (unfold held in H; cbn [pc cur with_pc] in H) end;
   cbn [cnt] in *; rewrite ?cnt_opt in *; unfold upd in *; neqN; cbv iota in *; try lia.
@@ -763,5 +766,191 @@ Section StepN.
     - destruct Hts0 as [[Habs _]|[Hts1 H2]]; [discriminate|]. cbn [fst].
       apply inv_write_held; auto; try discriminate.
       unfold lokN; cbn. rewrite upd_same, Hts1. rewrite upd_other by auto. repeat split; auto; lia.
+  Qed.
+
+  Lemma stepN_PI1 nf : pc (thr s t) = PI1 nf -> InvN N own (fst (step s t)).
+  Proof.
+    intros Hpc. unfold step. rewrite Hpc.
+    pose proof Hloc as L. unfold lokN in L. rewrite Hpc in L. destruct L as (Hc & Hnf).
+    assert (Hn5 : forall k0 tmp, pc (thr s t) <> PN5 k0 tmp) by (rewrite Hpc; discriminate).
+    assert (Hh : held (thr s t) = nf :: opt (cur (thr s t))) by (unfold held; rewrite Hpc; reflexivity).
+    assert (Hin : In nf (held (thr s t))) by (rewrite Hh; left; reflexivity).
+    rewrite fst_let_finish.
+    assert (Hr : runN (set_fs s nf 1) nf) by (right; left; cbn; apply upd_same).
+    destruct (finish_specN N own _ t (thr s t) nf (Zn nf) Hprog Hr) as (Hc' & Hp' & Hl & Hh' & Hs).
+    mkN N own s t I0 Ht; [reflexivity|exact Hts|reflexivity| |exact Hfrom| | |exact Hp'|exact Hl].
+    - oth_tac I0 Ht ltac:(fun u Hne' Hu => apply (keeps_held N own s t u nf 1%Z I0 Ht Hu Hne' Hin); lia).
+    - intros _. apply Hto'; auto.
+    - intros g. unfold hok in Hnf. rewrite Hc in *. fibN2 Hfib Ht Hh Hh' g.
+  Qed.
+
+  (* wake / park-saving: the waker takes the parked fiber out of its wait queue *)
+  Lemma inv_unpark f P : (P = PW2 f \/ P = PP2 f) ->
+    held (thr s t) = opt (cur (thr s t)) -> (forall k0 tmp, pc (thr s t) <> PN5 k0 tmp) ->
+    runN s (cur (thr s t)) -> fstt s f = 3%Z -> inwq s f = true ->
+    InvN N own (set_thr (set_wq s f false) t (with_pc (thr s t) P)).
+  Proof.
+    intros HP Hh Hn5 Hr E3 Ew. apply wqz_true in Ew.
+    mkN N own s t I0 Ht; [reflexivity|exact Hts|reflexivity| |exact Hfrom| | |exact Hprog|].
+    - oth_tac I0 Ht ltac:(fun u Hne Hu => apply (keeps_same N own s u (thr s u)); apply (m_loc N own s I0 u Hu)).
+    - intros _. apply Hto'; auto.
+    - intros g. destruct HP as [-> | ->]; fibN Hfib Ht Hh g.
+    - destruct HP as [-> | ->]; unfold lokN; cbn; auto.
+  Qed.
+
+  Lemma stepN_PW1 f : pc (thr s t) = PW1 f -> InvN N own (fst (step s t)).
+  Proof.
+    intros Hpc. unfold step. rewrite Hpc.
+    pose proof Hloc as L. unfold lokN in L. rewrite Hpc in L.
+    assert (Hn5 : forall k0 tmp, pc (thr s t) <> PN5 k0 tmp) by (rewrite Hpc; discriminate).
+    assert (Hh : held (thr s t) = opt (cur (thr s t))) by (unfold held; rewrite Hpc; reflexivity).
+    destruct (Z.eqb_spec (fstt s f) 3) as [E3|E3]; destruct (inwq s f) eqn:Ew; cbn [andb];
+      try (rewrite fst_let_finish; apply inv_finish_only; auto; fail).
+    cbn [fst]. apply inv_unpark; auto.
+  Qed.
+
+  Lemma stepN_PP1 f : pc (thr s t) = PP1 f -> InvN N own (fst (step s t)).
+  Proof.
+    intros Hpc. unfold step. rewrite Hpc.
+    pose proof Hloc as L. unfold lokN in L. rewrite Hpc in L.
+    assert (Hn5 : forall k0 tmp, pc (thr s t) <> PN5 k0 tmp) by (rewrite Hpc; discriminate).
+    assert (Hh : held (thr s t) = opt (cur (thr s t))) by (unfold held; rewrite Hpc; reflexivity).
+    destruct (Z.eqb_spec (fstt s f) 3) as [E3|E3]; destruct (inwq s f) eqn:Ew; cbn [andb];
+      try (rewrite fst_let_finish; apply inv_finish_only; auto; fail).
+    cbn [fst]. apply inv_unpark; auto.
+  Qed.
+
+  Lemma stepN_PW2 f : pc (thr s t) = PW2 f -> InvN N own (fst (step s t)).
+  Proof.
+    intros Hpc. unfold step. rewrite Hpc. cbn [fst].
+    pose proof Hloc as L. unfold lokN in L. rewrite Hpc in L. destruct L as (Hr & H3).
+    assert (Hh : held (thr s t) = f :: opt (cur (thr s t))) by (unfold held; rewrite Hpc; reflexivity).
+    assert (Hne : cur (thr s t) <> f).
+    { destruct (cur (thr s t)) eqn:Ec; [intros E; pose proof (n_range N s f (Hfib f)); lia|].
+      intros E. apply (held_distinct _ _ [] Hh). auto. }
+    apply inv_write_held; auto; try (rewrite Hpc; discriminate); try discriminate.
+    - rewrite Hh. left; reflexivity.
+    - unfold lokN, runN in *; cbn. rewrite upd_same. split; [lia|]. rewrite upd_other by auto. exact Hr.
+  Qed.
+
+  Lemma stepN_PP2 f : pc (thr s t) = PP2 f -> InvN N own (fst (step s t)).
+  Proof.
+    intros Hpc. unfold step. rewrite Hpc. cbn [fst].
+    pose proof Hloc as L. unfold lokN in L. rewrite Hpc in L. destruct L as (Hr & H3).
+    assert (Hh : held (thr s t) = f :: opt (cur (thr s t))) by (unfold held; rewrite Hpc; reflexivity).
+    assert (Hne : cur (thr s t) <> f).
+    { destruct (cur (thr s t)) eqn:Ec; [intros E; pose proof (n_range N s f (Hfib f)); lia|].
+      intros E. apply (held_distinct _ _ [] Hh). auto. }
+    apply inv_write_held; auto; try (rewrite Hpc; discriminate); try discriminate.
+    - rewrite Hh. left; reflexivity.
+    - unfold lokN, runN in *; cbn. rewrite upd_same. split; [lia|]. rewrite upd_other by auto. exact Hr.
+  Qed.
+
+  Lemma stepN_PF1 f : pc (thr s t) = PF1 f -> InvN N own (fst (step s t)).
+  Proof.
+    intros Hpc. unfold step. rewrite Hpc.
+    pose proof Hloc as L. unfold lokN in L. rewrite Hpc in L.
+    assert (Hn5 : forall k0 tmp, pc (thr s t) <> PN5 k0 tmp) by (rewrite Hpc; discriminate).
+    assert (Hh : held (thr s t) = opt (cur (thr s t))) by (unfold held; rewrite Hpc; reflexivity).
+    destruct (Z.eqb_spec (fstt s f) 5) as [E5|E5].
+    - cbn [fst]. apply inv_thr_only; auto; try discriminate. unfold lokN; cbn. split; auto. lia.
+    - rewrite fst_let_finish. apply inv_finish_only; auto.
+  Qed.
+
+  Lemma stepN_PF2 f : pc (thr s t) = PF2 f -> InvN N own (fst (step s t)).
+  Proof.
+    intros Hpc. unfold step. rewrite Hpc.
+    pose proof Hloc as L. unfold lokN in L. rewrite Hpc in L. destruct L as (Hr & H1).
+    assert (Hn5 : forall k0 tmp, pc (thr s t) <> PN5 k0 tmp) by (rewrite Hpc; discriminate).
+    assert (Hh : held (thr s t) = opt (cur (thr s t))) by (unfold held; rewrite Hpc; reflexivity).
+    rewrite fst_let_finish.
+    assert (Hr' : runN (set_fs s f 3) (cur (thr s t))).
+    { unfold runN in *. cbn [fstt set_fs]. unfold upd. destruct (Nat.eqb (cur (thr s t)) f); auto. }
+    destruct (finish_specN N own _ t (thr s t) (cur (thr s t)) (Zn f) Hprog Hr') as (Hc' & Hp' & Hl & Hh' & Hs).
+    mkN N own s t I0 Ht; [reflexivity|exact Hts|reflexivity| |exact Hfrom| | |exact Hp'|exact Hl].
+    - oth_tac I0 Ht ltac:(fun u Hne Hu => apply (keeps_flip N own s u f I0 Hu H1)).
+    - intros _. apply Hto'; auto.
+    - intros g. fibN2 Hfib Ht Hh Hh' g.
+  Qed.
+
+  Lemma stepN_Fin : pc (thr s t) = Fin -> InvN N own (fst (step s t)).
+  Proof. intros Hpc. unfold step. rewrite Hpc. exact I0. Qed.
+
+  (* ---- load_balance ---- *)
+  Lemma lb_ret_inv k dqs (S1 := {| dq := dqs; sfrom := sfrom s; sto := sto s; fstt := fstt s; inwq := inwq s;
+                                   thr := thr s; nthr := nthr s; to_store := to_store s |}) :
+    (forall k0 tmp, pc (thr s t) <> PN5 k0 tmp) -> klb s (cur (thr s t)) k ->
+    (forall T', held T' = opt (cur (thr s t)) -> (forall k0 tmp, pc T' <> PN5 k0 tmp) ->
+                prog_okN N own t (prog T') -> lokN N own S1 t T' -> InvN N own (set_thr S1 t T')) ->
+    InvN N own (fst (lb_ret S1 t (thr s t) k)).
+  Proof.
+    intros Hn5 Hk Hmk. unfold lb_ret. destruct Hk as [[-> Hc]|[-> Hr]].
+    - cbn [fst]. apply Hmk; try discriminate; auto;
+        try (unfold held; cbn; rewrite Hc; reflexivity); try (unfold lokN; cbn; exact Hc).
+    - match goal with |- context [finish ?a ?b ?c ?d] => destruct (finish a b c d) as [e1 T1] eqn:EX end.
+      cbn [fst]. replace T1 with (snd (finish t (thr s t) (cur (thr s t)) 0%Z)) by (rewrite EX; reflexivity).
+      assert (Hr' : runN S1 (cur (thr s t))) by exact Hr.
+      destruct (finish_specN N own S1 t (thr s t) _ 0%Z Hprog Hr') as (Hc' & Hp' & Hl & Hh' & Hs).
+      apply Hmk; auto. apply startpc_not_PN5; auto.
+  Qed.
+
+  Lemma fst_let2 {A B C} (X : A * B) (f : B -> C) : fst (let '(a, b) := X in (a, f b)) = fst X.
+  Proof. destruct X; reflexivity. Qed.
+
+  (* load_balance from a deque map dq0 = the deques after t's own push (if any):
+     (a) the total count is that of s with t holding only its current fiber,
+     (b) queued fibers have state >= 2, (c) only t's own deques differ from s *)
+  Lemma inv_lb_scan dq0 k i lc ms rc :
+    (forall g, Qcn dq0 (nthr s) g + cnt (opt (cur (thr s t))) g = Qcn (dq s) (nthr s) g + cnt (held (thr s t)) g) ->
+    (forall g, 1 <= Qcn dq0 (nthr s) g -> (2 <= fstt s g)%Z) ->
+    (forall d', d' <> 2 * t + 1 -> d' <> 2 * t + 2 -> dq0 d' = dq s d') ->
+    (forall k0 tmp, pc (thr s t) <> PN5 k0 tmp) -> klb s (cur (thr s t)) k -> 2 * (t + 1) <= i ->
+    forall dqs r, lb_scan (2 * nthr s + 60) dq0 (nthr s) i (lb_iend t (nthr s)) lc ms rc = (dqs, r) ->
+    InvN N own (fst (match r with
+                     | Some (i', lc', rc', ms', x) =>
+                         (set_thr {| dq := dqs; sfrom := sfrom s; sto := sto s; fstt := fstt s; inwq := inwq s;
+                                     thr := thr s; nthr := nthr s; to_store := to_store s |} t
+                                  (with_pc (thr s t) (PL2 k i' lc' rc' ms' x)), [])
+                     | None => lb_ret {| dq := dqs; sfrom := sfrom s; sto := sto s; fstt := fstt s; inwq := inwq s;
+                                         thr := thr s; nthr := nthr s; to_store := to_store s |} t (thr s t) k
+                     end)).
+  Proof.
+    intros Ha Hb Hc Hn5 Hk Hi dqs r ES.
+    assert (Hto : sto s t = 4 * t + 3 - sfrom s t) by (apply Hto'; auto).
+    apply lb_scan_spec in ES. destruct ES as [[-> ->]|(i' & lc' & rc' & ms' & x & l & -> & Hi' & Hdv & ->)].
+    - (* nothing stolen *)
+      apply lb_ret_inv; auto. intros T' Hh' Hn5' Hp' Hl'.
+      mkN N own s t I0 Ht; [reflexivity|exact Hts|reflexivity| |exact Hfrom| | |exact Hp'|exact Hl'].
+      + intros u Hne Hu. pose proof (dq_other N own s t u I0 Ht Hu Hne) as D.
+        split; [reflexivity|]. split; [reflexivity|]. split; [cbn [dq]; rewrite Hc by lia; auto|].
+        apply (keeps_same N own s u (thr s u)); apply (m_loc N own s I0 u Hu).
+      + intros _. exact Hto.
+      + intros g. pose proof (Hfib g) as []. specialize (Ha g). pose proof (Hb g).
+        pose proof (Hcn_upd (thr s) (nthr s) t T' g Ht) as EH. rewrite Hh' in EH.
+        pose proof (Hcn_term (thr s) (nthr s) t g Ht).
+        constructor; rewrite ?wqz_set_thr; cbn [thr nthr dq fstt set_thr]; try lia.
+    - (* x stolen from the far end of deque dv of another thread *)
+      assert (Hr : 2 * (t + 1) <= i' < lb_iend t (nthr s)) by lia.
+      destruct (scan_deque t (nthr s) i' Ht Hr) as (Dv1 & Dv2 & Dv3).
+      remember (qid (i' mod (2 * nthr s))) as dv eqn:Edv. cbn [fst].
+      assert (Hx2 : (2 <= fstt s x)%Z).
+      { apply Hb. pose proof (Qcn_term dq0 (nthr s) dv x Dv1) as Hq. rewrite Hdv, cnt_app in Hq.
+        cbn [cnt] in Hq. rewrite Nat.eqb_refl in Hq. lia. }
+      mkN N own s t I0 Ht; [reflexivity|exact Hts|reflexivity| |exact Hfrom| | |exact Hprog|].
+      + intros u Hne Hu. pose proof (dq_other N own s t u I0 Ht Hu Hne) as D.
+        split; [reflexivity|]. split; [reflexivity|]. split.
+        * cbn [dq set_thr]. intros E. unfold upd. destruct (Nat.eqb_spec (sfrom s u) dv) as [E1|E1].
+          -- exfalso. rewrite <- E1, Hc in Hdv by lia. rewrite E in Hdv. destruct l; discriminate.
+          -- rewrite Hc by lia. exact E.
+        * apply (keeps_same N own s u (thr s u)); apply (m_loc N own s I0 u Hu).
+      + intros _. exact Hto.
+      + intros g. pose proof (Hfib g) as []. specialize (Ha g). pose proof (Hb g) as Hbg.
+        pose proof (Hcn_upd (thr s) (nthr s) t (with_pc (thr s t) (PL2 k i' lc' rc' ms' x)) g Ht) as EH.
+        pose proof (Hcn_term (thr s) (nthr s) t g Ht).
+        pose proof (Qcn_upd dq0 (nthr s) dv l g Dv1) as EQ. rewrite Hdv, cnt_app in EQ. cbn [cnt] in EQ.
+        unfold held in EH at 3. cbn [pc with_pc cur cnt] in EH.
+        constructor; rewrite ?wqz_set_thr; cbn [thr nthr dq fstt set_thr];
+          destruct (Nat.eqb_spec x g); try subst g; try lia.
+      + unfold lokN; cbn. split; [exact Hk|]. split; [exact Hx2|lia].
   Qed.
 End StepN.
